@@ -98,6 +98,10 @@ func handleJcc(params x86genParams, ctx *CodeGenContext) ([]byte, error) {
 		// JMP rel8 (オペコード: eb, オフセット: 1 byte)
 		// JMP rel16 (オペコード: e9, オフセット: 2 bytes)
 		// JMP rel32 (オペコード: e9, オフセット: 4 bytes)
+		if form := branchFormOperand(params.OCode.Operands); form != "" {
+			// pass1 が形式を決めている: そのとおりに出力する (サイズの見積もりと一致させる)
+			return encodeBranchForm(form, []byte{0xeb}, []byte{0xe9}, destAddr, currentAddr, ctx.BitMode)
+		}
 		relativeOffset := destAddr - currentAddr // ジャンプ先までの相対距離
 		offsetSize := getOffsetSize(relativeOffset)
 
@@ -193,6 +197,9 @@ func handleJcc(params x86genParams, ctx *CodeGenContext) ([]byte, error) {
 		return nil, fmt.Errorf("invalid opcode kind for generateJMPCode: %v", params.OCode.Kind)
 	}
 
+	if form := branchFormOperand(params.OCode.Operands); form != "" {
+		return encodeBranchForm(form, []byte{opcode}, []byte{0x0f, opcode + 0x10}, destAddr, currentAddr, ctx.BitMode)
+	}
 	relativeOffset := destAddr - currentAddr // ジャンプ先までの相対距離を先に計算
 	switch getOffsetSize(relativeOffset) {
 	case 1: // rel8
